@@ -1571,7 +1571,13 @@ func makeSliceArshaler(t reflect.Type) *arshaler {
 			}
 			var i int
 			var errUnmarshal error
-			for dec.PeekKind() != ']' {
+			for {
+				if ok, err := arrayHasNext(dec); err != nil {
+					va.SetLen(i)
+					return err
+				} else if !ok {
+					break
+				}
 				if i == cap {
 					va.Value.Grow(1)
 					cap = va.Cap()
@@ -1675,7 +1681,12 @@ func makeArrayArshaler(t reflect.Type) *arshaler {
 			}
 			var i int
 			var errUnmarshal error
-			for dec.PeekKind() != ']' {
+			for {
+				if ok, err := arrayHasNext(dec); err != nil {
+					return err
+				} else if !ok {
+					break
+				}
 				if i >= n {
 					if err := dec.SkipValue(); err != nil {
 						return err
